@@ -17,6 +17,9 @@
 (*              S_DONE returned, S_HUNG not returned within the bound      *)
 (*  obs.calls   one record per activity in the order in which they were    *)
 (*              begun: [k |-> kind, st |-> status of the blocked caller]   *)
+(*              (the update activity has two blocked callers and therefore *)
+(*              two consecutive records: the Rescan.Update call, k = 8,    *)
+(*              and the reader of its rescan's error channel, k = 4)       *)
 (*              C_PENDING  still inside the call                           *)
 (*              C_SHUT     returned a shutdown error                       *)
 (*              C_CANCEL   returned a cancellation error / its channel was *)
